@@ -140,6 +140,15 @@ func (p *parser) parseIPv4Number(u *Url, input string) (number int64, validation
 		err = strconv.ErrSyntax
 		return
 	}
+	// strconv.ParseInt reports a range error as soon as a prefix overflows, before it has seen a later invalid character;
+	// such an input is not a number at all, so the digits are checked first.
+	for i := 0; i < len(input); i++ {
+		c := input[i]
+		if !(c >= '0' && c <= '7' || R >= 10 && (c == '8' || c == '9') || R == 16 && (c >= 'a' && c <= 'f' || c >= 'A' && c <= 'F')) {
+			err = strconv.ErrSyntax
+			return
+		}
+	}
 	number, err = strconv.ParseInt(input, R, 64)
 	return
 }
